@@ -363,6 +363,29 @@ ns_inject_now(const coap_address_t *src, const coap_address_t *dst, const uint8_
   hand_over(d);
 }
 
+/* An ICMP "port unreachable" for a connected UDP client socket: the next coap_socket_recv() on it returns -2 (what the real
+ * function makes of ECONNREFUSED); libcoap treats that as a notice (COAP_NACK_ICMP_ISSUE), not as the end of the session. */
+static struct ns_sock *g_icmp_sk;
+int
+ns_icmp_unreachable(const coap_address_t *client_local) {
+  for (int i = 0; i < NS_MAXSOCK; i++) {
+    struct ns_sock *k = &g_socks[i];
+    if (k->kind == SK_UDP_CLIENT && addr_eq(&k->local, client_local)) {
+      g_icmp_sk = k;
+      k->sock->flags |= COAP_SOCKET_CAN_READ;
+      do_io_ctx(k->ctx);
+      if (g_icmp_sk) { /* not consumed */
+        g_icmp_sk = NULL;
+        if (sk_find(k->sock) == k)
+          k->sock->flags &= ~COAP_SOCKET_CAN_READ;
+        return 0;
+      }
+      return 1;
+    }
+  }
+  return 0;
+}
+
 /* ---- wrapped libcoap socket functions (datagram) ---- */
 int ns_bind_fail_next;
 int __wrap_coap_socket_bind_udp(coap_socket_t *sock, const coap_address_t *listen_addr, coap_address_t *bound_addr);
@@ -450,6 +473,11 @@ __wrap_coap_socket_recv(coap_socket_t *sock, coap_packet_t *packet) {
   if ((sock->flags & COAP_SOCKET_CAN_READ) == 0)
     return -1;
   sock->flags &= ~COAP_SOCKET_CAN_READ;
+  if (g_icmp_sk && g_icmp_sk->sock == sock) {
+    g_icmp_sk = NULL;
+    errno = ECONNREFUSED;
+    return -2;
+  }
   if (!g_pending || !g_pending_sk || g_pending_sk->sock != sock) {
     errno = EAGAIN;
     return -1;
@@ -1149,6 +1177,7 @@ ns_init(void) {
   ns_prng_hook = NULL;
   ns_steps = 0;
   ns_send_fail_next = 0;
+  g_icmp_sk = NULL;
   g_lcg = 0x9E3779B97F4A7C15ULL;
   coap_startup();
   coap_set_prng(ns_prng);
